@@ -502,7 +502,12 @@ fn order_checks(
         for w in units.windows(2) {
             let (a, b) = (&w[0], &w[1]);
             if a.span.max_pass > b.span.min_first {
-                let g = if a.is_cap && b.is_cap { "capture_order" } else { "branch_order" };
+                // the caller-side segment of a step (branch == CALLER) holds the step's block captures in branch-then-position
+                // order: a block that is just `{ w::init(e) }`, or the value expression after the marker statement, is part of
+                // its capture — an order violation there with a capture on either side is a capture-order violation (S-L8: the
+                // two block operands of one fold evaluated in reverse)
+                let seg_is_caller = sk.len() >= 2 && sk[sk.len() - 2] == CALLER && sk[sk.len() - 1] != STEP_HANDLER;
+                let g = if (a.is_cap && b.is_cap) || (seg_is_caller && (a.is_cap || b.is_cap)) { "capture_order" } else { "branch_order" };
                 out.push(v(
                     g,
                     prog.ev(b.ev).map(|m| m.kind),
